@@ -15,7 +15,7 @@
    termination of its callbacks, and it does not read options['statementCount']; both proved for the modelled library. *)
 From Coq Require Import List.
 From BS Require Import Model.Base Model.Num Model.Arith Model.ExprParser Model.Script Model.Interp Model.LibCore Model.RunC01
-                       Model.ScriptX Model.Lower Proofs.Fuel Proofs.C01 Proofs.C01b Proofs.C01c Proofs.C01d Proofs.Blind Proofs.C07 Proofs.C09 Proofs.C01lim.
+                       Model.ScriptX Model.Lower Proofs.Fuel Proofs.C01 Proofs.C01b Proofs.C01c Proofs.C01d Proofs.Blind Proofs.C07 Proofs.C09 Proofs.C01lim Model.LibAll Proofs.LibAll.
 
 Lemma real_lab_inj : forall k n k' n', real_lab k n = real_lab k' n' -> k = k' /\ n = n'.
 Proof.
@@ -95,6 +95,16 @@ Print Assumptions C01_simulation_under_a_limit_partial.
 Theorem C01_premises_hold_for_modelled_library : forall cfg, lib_fuel_monotone (libcore cfg) /\ lib_count_blind (libcore cfg).
 Proof. intros cfg. split; [exact (libcore_fuel_monotone cfg)|exact (libcore_count_blind cfg)]. Qed.
 Print Assumptions C01_premises_hold_for_modelled_library.
+
+(* ... and for the COMBINED library the check runs (Model/LibAll.v: LibCore overlaid with the lifted array / object / string
+   functions of Model/LibSeq.v, 58 functions): all four premises of the simulation theorems *)
+Theorem C01_premises_hold_for_combined_library : forall cfg,
+  lib_fuel_monotone (libfull cfg) /\ lib_count_blind (libfull cfg) /\ lib_monotone (libfull cfg) /\ lib_lockstep (libfull cfg) cfg.
+Proof.
+  intros cfg. split; [exact (libfull_fuel_monotone cfg)|]. split; [exact (libfull_count_blind cfg)|].
+  split; [exact (libfull_monotone cfg)|exact (libfull_lockstep cfg)].
+Qed.
+Print Assumptions C01_premises_hold_for_combined_library.
 
 (* [compile] IS the parser's lowering: folding the parser's pure lowering step (Model/Lower.v kstep; Props/C07.v proves
    pstep = classify ; kstep) over the line kinds of a tree, from the parser's initial state and whatever the line numbers and
